@@ -59,6 +59,7 @@ let runners : (string * (z list -> z list)) list = [
   "mseq", run_mseq;
   "llo", run_llo;
   "guards", run_guards;
+  "pipebuf", run_pipebuf;
 ]
 
 let () =
